@@ -30,7 +30,7 @@ CASES = [
  N("ws-bytelen-bytes", WW, "        if isinstance(message, memoryview) and message.nbytes != len(message):\n            # len() counts items, the frame lengths below are byte counts\n            message = message.cast(\"B\")\n", "        if isinstance(message, memoryview) and message.nbytes != len(message):\n            # len() counts items, the frame lengths below are byte counts\n            message = bytes(message)\n", "copy instead of re-shape", ("C11",)),
  N("ws-qsize-max", WR, "        size = data.size or 1\n", "        size = max(data.size, 1)\n", "max() instead of `or`", ("C12",), count=2),
  N("ws-eof-latch-inverted", WR, "        if self._exc is None:\n            self.queue.feed_eof()\n", "        if self._exc is not None:\n            return\n        self.queue.feed_eof()\n", "early return form", ("C12",)),
- N("te10-version-le", HP, "        if version_o < HttpVersion11 and hdrs.TRANSFER_ENCODING in headers:\n", "        if hdrs.TRANSFER_ENCODING in headers and version_o <= HttpVersion10:\n", "same condition, other spelling", ("C01",)),
+ N("te10-version-le", HP, "        if version_o < HttpVersion11 and hdrs.TRANSFER_ENCODING in headers:\n", "        if hdrs.TRANSFER_ENCODING in headers and version_o <= HttpVersion10:\n", "same condition, other spelling", ("C01", "C06"), count=2),
  N("upgrade101-eq", HP, "                            and code in (0, 101)\n", "                            and (code == 0 or code == 101)\n", "membership spelled as two comparisons", ("C06",)),
  N("write-eof-length-if", HW, "        if chunk and self.length is not None:\n            # Same as write(): do not exceed the declared Content-Length\n            chunk = chunk[: self.length]\n            self.length -= len(chunk)\n", "        if self.length is not None and chunk:\n            # Same as write(): do not exceed the declared Content-Length\n            chunk = chunk[: self.length]\n            self.length = self.length - len(chunk)\n", "operands swapped, explicit subtraction", ("C04",)),
  N("wait-eof-timer-var", ST, "            with self._timer:\n                await self._eof_waiter\n", "            timer = self._timer\n            with timer:\n                await self._eof_waiter\n", "timer through a local", ("C18",)),
